@@ -147,6 +147,7 @@ def check_prefix(ctx, prog, ex, kind, s, evs, a, b, S, lens, bodies, fsh, fs0, o
             props = props_of(prog, kind, msg)
             pname = f"hdr#{fsh.FV.index('Header')}.2.boxed.3"
             conds.append(z3.BoolVal(getattr(props, 'origin', None) == pname or (isinstance(props, Lazy) and props.name == pname)))
+    conds.append(earlier_kept(w))
     claim = z3.And(*conds)
     m = ctx.decide(f"c03.{kind}.prefix[{'/'.join(names)}]", s.pc, claim,
                    group='content is handed over exactly when the announced size is reached, once, to its addressee, as the concatenation of the body frames in order with the sent metadata and properties; overrun => FrameUnexpected',
